@@ -169,13 +169,36 @@ func main() {
 			}
 			lines = append(lines, l)
 		}
+		// every twentieth history has one very long entry: around the powers of two where a size limit is likely
+		// to sit, plain or made of characters that grow when they are encoded (a limit applied to the text on one
+		// side and to the record on the other lets the text through and loses the record)
+		if i%20 == 7 {
+			base := []int{1 << 17, 1 << 18, 1 << 19, 1 << 20, 1 << 21, 3 << 20}[r.Intn(6)]
+			var l string
+			switch r.Intn(4) {
+			case 0:
+				l = strings.Repeat("x", base-r.Intn(120))
+			case 1:
+				l = strings.Repeat("y", base+r.Intn(120))
+			case 2:
+				l = strings.Repeat("\x01", base/6+base/40+r.Intn(50)) // six bytes each once encoded
+			default:
+				l = strings.Repeat("\"", base/2+base/40+r.Intn(50)) // two bytes each once encoded
+			}
+			class = "huge"
+			lines[r.Intn(len(lines))] = l
+		}
 		rep.Classes[class]++
 		h, _ := readline.NewHistoryFromFile(path) // the file does not exist yet: the error is expected
 		// expected durable content: what Write accepts (trimmed, non-blank); the file keeps consecutive duplicates
 		var want []string
 		var sizes []int64
 		for _, l := range lines {
-			h.Write(l)
+			// only what was successfully written is owed back
+			if _, werr := h.Write(l); werr != nil {
+				rep.Classes["write-refused"]++
+				continue
+			}
 			if t := strings.TrimSpace(l); t != "" {
 				want = append(want, t)
 			}
@@ -207,6 +230,9 @@ func main() {
 		step := int64(1)
 		if int64(len(full))-start > 400 {
 			step = (int64(len(full)) - start) / 200
+		}
+		if class == "huge" {
+			step = (int64(len(full))-start)/40 + 1
 		}
 		for cut := start; cut < int64(len(full)); cut += step {
 			os.WriteFile(path, full[:cut], 0o600)
